@@ -2,7 +2,7 @@
 From Coq Require Import ZArith List Bool.
 Import ListNotations.
 Require Import GV.Gen.Consts GV.Model.Hcu GV.Model.Packets
-  GV.Proofs.C13_total GV.Proofs.C13_header GV.Proofs.C13_roundtrip GV.Proofs.C13_size.
+  GV.Proofs.C13_total GV.Proofs.C13_header GV.Proofs.C13_roundtrip GV.Proofs.C13_size GV.Model.Utf8 GV.Proofs.Utf8_proof.
 Local Open Scope Z_scope.
 
 Theorem C13_header_canonical : forall t n,
@@ -65,3 +65,12 @@ Print Assumptions C13_actor_size_exact.
 Theorem C13_actor_size_refuted : pwf big_actor /\ in_bounds big_actor /\ lenb (enc_payload big_actor) = 1101.
 Proof. exact actor_size_refuted. Qed.
 Print Assumptions C13_actor_size_refuted.
+
+(* the text the ties compare: on 7-bit strings the UTF-8 view is the byte view (the first k
+   characters are the first k bytes; always comparable), and what is taken is a prefix of the input *)
+Theorem C13_utf8_ascii : forall k l, ascii7 l = true -> utf8_take k l = Some (firstn k l) /\ utf8_clean l = true.
+Proof. exact utf8_ascii_both. Qed.
+Print Assumptions C13_utf8_ascii.
+Theorem C13_utf8_prefix : forall fuel k l p, utf8_take_f fuel k l = Some p -> exists r, l = p ++ r.
+Proof. exact utf8_take_prefix. Qed.
+Print Assumptions C13_utf8_prefix.
